@@ -121,7 +121,7 @@ void operator delete[](void* p)
         return;
       }
       unsigned long left = liveObjectsIn(b.base, b.size);
-      snprintf(t, sizeof(t), left ? "F%u!live%lu" : "F%u", b.id, left);
+      snprintf(t, sizeof(t), left ? "F%u!live%lu" : (b.cls == 2 ? "Ft%u" : "F%u"), b.id, left);   // Ft = the table of a hash container (no element slots)
       ev(t);
       b.freed = true;
       --liveBlocks;
